@@ -169,6 +169,9 @@ def og_cases(draw, max_n=22):
     pr = draw(profile(allow_zero=False, max_n=max_n))
     pr["R"] = draw(st.integers(0, 3))
     pr["npseed"] = draw(st.integers(0, 2**32 - 1))
+    # whole-metre altitude tables stored as unsigned integers (uint16 holds every altitude up to 65 km)
+    if draw(st.integers(0, 3)) == 0 and float(np.max(pr["h"])) < 65000 and len(np.unique(np.round(pr["h"]))) == len(pr["h"]):
+        pr["h"] = np.round(pr["h"]).astype(draw(st.sampled_from(["uint16", "uint32", "uint64"])))
     return pr
 
 
@@ -194,6 +197,9 @@ def og_body(ctx, case):
         np.random.set_state(st0)
     ctx.equal(h, h0, "optimal_grouping modified h")
     ctx.equal(p, p0, "optimal_grouping modified p")
+    if h.dtype.kind == "u":
+        ctx.classes["heights_" + str(h.dtype)] += 1
+    h = h.astype(np.float64)            # the oracle computes with the numbers, not modulo the container's range
     hl, cl = np.asarray(hl), np.asarray(cl)
     ctx.require(hl.shape == (L,) and cl.shape == (L,), "optimal_grouping: %d heights / %d strengths returned, expected exactly L=%d (N=%d)" % (len(hl), len(cl), L, N))
     ctx.require(bool(np.all(cl >= 0)), "optimal_grouping: negative strength")
